@@ -19,6 +19,7 @@ FAMILIES = {
     "formats": "harness.check_formats",
     "loader": "harness.check_loader",
     "rdf": "harness.check_rdf",
+    "query": "harness.check_query",
 }
 # property -> families whose judges print verdicts for it
 PROPS = {
@@ -33,6 +34,7 @@ PROPS = {
     "C07": ["save"],
     "C18": ["loader"],
     "C10": ["rdf"],
+    "C20": ["query"],
     "C01": ["formats"], "C02": ["formats"],
 }
 EXPLAIN = {}
